@@ -87,6 +87,37 @@ CHECKS = {
               "repaired (find_subseq with a longer subsequence, fix: f44d712)."),
         technique="TLA+ case enumeration with declarative definitions (TLC) + exhaustive replay of every exported case",
     ),
+    "C04": dict(
+        cat="model_checking",
+        text=("specs/Op4.tla: OUTPUT4 as a grammar with a nondeterministic encoder (every partition of a column into strings, zeros "
+              "inside strings, null columns skipped; dense/bigmat/nonbigmat; words-per-value, complex, ASCII vs binary word counting, "
+              "high row offsets) and the reader's arithmetic; TLC checks DecodeIsIdentity, LayoutRecognised, SkipExact and FieldRanges "
+              "for every encoding of every small matrix. code -> spec: pyYeti's writer is run for every non-zero pattern of 3x2 and "
+              "5x1 matrices x real/complex x stress values over the whole double range x binary/ASCII x endian x "
+              "dense/bigmat/nonbigmat/auto x digits x ndarray/scipy-sparse x forms x 1-3 matrices per file (duplicate names); the "
+              "bytes are tokenised by a neutral tokenizer (a word of the grammar?), the abstract records must be a member of the "
+              "TLC-exported set of legal encodings of THAT matrix, values exact; then read back dense/sparse/auto. Special shapes: "
+              "rows over the fromfile cut-over, >= 65536 rows, the nonbigmat string limit, auto form."),
+        ref="4/C04-C11",
+        note=("Trusted: TLC, the neutral tokenizer (struct + string formatting; validated on the 61 shipped sample files). ASCII "
+              "identity = the printed digits. One genuine defect repaired (3-digit exponents, fix: 4e8fd46), one recorded as known "
+              "finding (binary nonbigmat string >= 16384 values)."),
+        technique="TLA+ format grammar with nondeterministic encoder (TLC) + trace validation of the writer's tokenised output + read-back replay",
+    ),
+    "C11": dict(
+        cat="model_checking",
+        text=("spec -> code: every encoding exported by TLC from specs/Op4.tla (9 model configurations: binary/ASCII x words per value "
+              "x real/complex x row offsets up to 65000) is rendered by a neutral renderer that shares no code with pyYeti in every "
+              "compatible physical variant (byte order x 32/64-bit keys x single/double; ASCII E/D x 5 announced widths x 1P prefix "
+              "x |I16 header) with stress values, three matrices per file incl. duplicate names, and read with load (dense, sparse, "
+              "auto), read, dir and named subsets (skipper must land on the next header). code <- files: all shipped OUTPUT4 sample "
+              "files are tokenised as words of the grammar and the neutral decode is compared with pyYeti's reads and listings. "
+              "OUTPUT2: see level note."),
+        ref="4/C04-C11",
+        note=("Trusted: TLC; harness/phys_op4.py. OUTPUT2 matrix/table framing is covered by the OP2 part of the driver "
+              "(harness/drive_C11_op2.py); table CONTENT decoding (GEOM1, BGPDT, ...) is not in scope."),
+        technique="TLA+ format grammar (TLC) + replay of every exported encoding through a neutral renderer into the readers; trace validation of shipped files",
+    ),
 }
 
 NOT_YET = {}
